@@ -2345,6 +2345,8 @@ class EvalExceptionFormatter:
         self.frame_state: dict = dict(frame_state or {})
         # set when a new function call starts, so its frame isn't merged with the caller's
         self.new_call: bool = False
+        # class definition whose body may be the next thing executing
+        self.pending_class: ast.ClassDef | None = None
         tb = exc.__traceback__
         if frame_state and tb is not None and tb.tb_frame in frame_state:
             # a chained exception was caught inside a function of the outer traceback
@@ -2400,6 +2402,12 @@ class EvalExceptionFormatter:
                         self.new_call = True
                 elif code.co_qualname == AstEval.call_func.__qualname__ and self.current_func is None:
                     self.current_func = frame.f_locals.get("func_name", None)
+                elif code.co_qualname == AstEval.ast_classdef.__qualname__:
+                    # the statements of a class body get a frame of their own, named after the class
+                    # (but not its base classes, which are evaluated by the enclosing code)
+                    class_def = frame.f_locals.get("arg")
+                    if isinstance(class_def, ast.ClassDef):
+                        self.pending_class = class_def
                 elif code.co_qualname == AstEval.parse.__qualname__ and isinstance(self.exc, SyntaxError):
                     ctx = frame.f_locals.get("self")
                     self.current_code_list = ctx.code_list
@@ -2419,6 +2427,11 @@ class EvalExceptionFormatter:
 
                     for val in frame.f_locals.values():
                         if isinstance(val, (ast.expr, ast.stmt)) and hasattr(val, "lineno"):
+                            if self.pending_class is not None:
+                                if any(val is stmt for stmt in self.pending_class.body):
+                                    self.current_func = self.pending_class.name
+                                    self.new_call = True
+                                self.pending_class = None
                             self.lineno = getattr(val, "lineno", self.lineno)
                             self.col_offset = getattr(val, "col_offset", self.col_offset)
                             self.end_col_offset = getattr(val, "end_col_offset", self.col_offset)
